@@ -877,7 +877,15 @@ func (e *Engine) finished() bool {
 	if e.Done != nil {
 		return e.Done()
 	}
-	return e.next >= len(e.Plan) && e.callersIdle()
+	if e.next < len(e.Plan) {
+		return false
+	}
+	for _, inv := range e.w.Invokes {
+		if inv.Call.Pending() {
+			return false // (a slow reader is still reading)
+		}
+	}
+	return true
 }
 
 // Run drives the world until the plan is finished (or the bound passes).
